@@ -5,7 +5,7 @@ from sa.effects import Effects
 from sa.terms import C, CallT, P, Sub, SubC, is_call, is_lit, show
 from sa.walker import JSON_TYPES, State, flatten_events
 
-from . import payload_is_isolated, fn_site
+from . import payload_is_isolated, fn_site, own_site
 from .signer import SignSignable, agreement, canon_bytes, entry_dict, pubhex_of_private, signature_hex
 from .vs import VSModel, envelope, hexconj, le_facts
 
@@ -54,6 +54,7 @@ def run(ctx):
     p_ok, p_why = predicate_exact(eng, "common.is_signable", "envelope")
     ctx.ob("R1", "envelope-predicate-exact", site.loc(), "is_signable %s" % ("accepts exactly the two-field envelopes with a dict of signatures and a payload of any JSON type" if p_ok else "does not decide the envelope grammar that wrap_as_signable produces: " + p_why), p_ok)
     sign_signable_rules(ctx, "R2")
+    signing_is_total(ctx, "R4")
 
     # the bytes signed are a faithful image of the JSON value only under the published serializer
     # configuration (C07-R1, re-evaluated here)
@@ -75,6 +76,67 @@ def run(ctx):
     from .c06 import entries_independent
 
     entries_independent(ctx.sub("DEP-C06"), "R3")
+
+
+STEP_CALLEES = ("ext:json.dumps", "method:sign", "method:public_key", "method:public_bytes", "method:private_bytes", "method:encode", "method:decode", "ext:binascii.hexlify", "method:hex", "method:to_hex", "method:to_bytes")
+
+
+PIPELINE = ("signing.serialize_and_sign", "common.canonserialize")
+PIPELINE_CLASSES = ("common.MixinKey.", "common.PrivateKey.", "common.PublicKey.")
+
+
+def signing_is_total(ctx, rule):
+    """"for every JSON payload and every ed25519 private key ... signing yields an envelope": the
+    only ways sign_signable may fail are (a) a validator of common.py rejecting the key, the
+    envelope or the freshly built entry, (b) a step of the signing pipeline itself failing
+    (json.dumps of a payload that is not JSON below its top level, .sign() on something that is not
+    a private key, hex/bytes conversions).  Anything else rejects envelopes the property says
+    can be signed."""
+    from . import validators
+
+    eng = ctx.eng
+    w = SignSignable(eng)
+    ssite = fn_site(eng, w.sm)
+    vals = {"repo:" + q for q in validators(eng.prog)}
+    from sa.callgraph import CallGraph
+
+    pipeline = CallGraph(eng.prog).cone([q for q in PIPELINE if q in eng.prog.funcs])
+    seen = set()
+    n = 0
+    for p in w.sm.paths:
+        if p.kind != "raise":
+            continue
+        x = p.value
+        n += 1
+        raising = [ev for ev, _d in flatten_events(p.events) if ev[0] == "call" and ev[5][0] == "raise" and ev[1] in x.chain]
+        cause = None
+        for ev in raising:
+            callee = ev[2].split("[")[0].split("<")[0] if isinstance(ev[2], str) else ""
+            a0 = ev[3][0] if ev[3] else None
+            if callee in vals and (a0 in (w.signable, w.priv) or is_lit(a0, "dict")):
+                cause = "validation of %s" % ("the key" if a0 == w.priv else "the envelope" if a0 == w.signable else "the new entry")
+                break
+        if cause is None and raising:
+            inner = [ev for ev in raising if ev[1] == x.chain[-1]]
+            if inner and isinstance(inner[-1][2], str) and inner[-1][2] in STEP_CALLEES:
+                cause = "a step of the signing pipeline (%s)" % inner[-1][2].split(":")[-1]
+        if cause is None and x.origin == "explicit" and own_site(eng, x.chain[-1], "signing.sign_signable"):
+            # an explicit refusal guarded by a validator predicate: `if not is_signable(signable): raise`
+            for f in set(p.facts) | set(x.conds):
+                if f[0] == "ret" and f[2] is False and is_call(f[1]) and f[1][1].split("[")[0].split("<")[0] in vals and f[1][2]:
+                    a0 = f[1][2][0]
+                    if a0 in (w.signable, w.priv) or (isinstance(a0, tuple) and a0 and a0[0] in ("call", "lit")):
+                        cause = "validation of %s (predicate %s)" % ("the key" if a0 == w.priv else "the envelope" if a0 == w.signable else "the new entry", f[1][1][5:])
+                        break
+        if cause is None and x.origin == "implicit" and len(x.chain) > 1 and (x.chain[-1].fn in pipeline or x.chain[-1].fn.startswith(PIPELINE_CLASSES)):
+            cause = "a step of the signing pipeline (in %s)" % x.chain[-1].fn
+        k = (cause or "other", x.exc, x.chain[-1].key())
+        if k in seen:
+            continue
+        seen.add(k)
+        ctx.count(rule + ".failure_causes")
+        ctx.ob(rule, "failure|%s|%s|%s" % k, x.chain[-1].loc(), "sign_signable fails with %s at %s: %s" % (x.exc, x.chain[-1].text[:50], cause if cause else "not a rejection of the key or the envelope, nor a failing step of the signing pipeline (%s) - an envelope the property says can be signed is refused" % x.why[:80]), cause is not None)
+    ctx.floor(rule + ".failure_causes", 3)
 
 
 def sign_signable_rules(ctx, rule):
